@@ -77,19 +77,41 @@ def run_tempo(bath):
 
 
 _REFC = {}
+ALL_PARAMS = sorted(set((a, t) for a in (P_A[0], P_B[0], ALT[0]) for t in (P_A[1], P_B[1], ALT[1])))
+
+
+def _fresh_reference(key):
+    """Runs in a FRESH interpreter (spawned, one task per process): the very first evaluation of that process, so that
+    no class-level / module-level state left behind by other objects can leak into the reference."""
+    what, kind, p = key
+    if what == "E":
+        return key, eval_corr(make_corr(kind, p))
+    return key, run_tempo(oq.Bath(0.5 * M.SZ, make_corr(kind, p)))
+
+
+def precompute_references(kinds):
+    import multiprocessing as mp
+    keys = [(w, k, p) for w in ("E", "T") for k in kinds for p in ALL_PARAMS]
+    keys = [k for k in keys if k not in _REFC]
+    if not keys:
+        return
+    ctx = mp.get_context("spawn")
+    with ctx.Pool(min(16, len(keys)), maxtasksperchild=1) as pool:
+        for key, val in pool.imap_unordered(_fresh_reference, keys, chunksize=1):
+            _REFC[key] = val
 
 
 def ref_eval(kind, p):
     key = ("E", kind, p)
     if key not in _REFC:
-        _REFC[key] = eval_corr(make_corr(kind, p))
+        precompute_references([kind])
     return _REFC[key]
 
 
 def ref_tempo(kind, p):
     key = ("T", kind, p)
     if key not in _REFC:
-        _REFC[key] = run_tempo(oq.Bath(0.5 * M.SZ, make_corr(kind, p)))
+        precompute_references([kind])
     return _REFC[key]
 
 
@@ -392,6 +414,127 @@ def layout_case(name):
 
 
 # ------------------------------------------------------------------------------------------------
+# (4) no aliasing of caller arrays: mutate the caller's array AFTER the call, the object must not notice
+
+def retention_table():
+    """name -> function(arr) -> observer; observer() -> array.  arr is a writable C-contiguous complex128 array
+    (the layout for which np.asarray / ascontiguousarray / reshape return the caller's own buffer)."""
+    E = layout_env()
+    bath, prm, pt = E["bath"], E["prm"], E["pt"]
+
+    def dynamics_add(a):
+        d = oq.Dynamics()
+        d.add(0.0, a)
+        return lambda: np.array(d.states).ravel()
+
+    def dynamics_ctor(a):
+        d = oq.Dynamics(times=[0.0, 1.0], states=[a, a])
+        return lambda: np.concatenate([np.array(d.states).ravel(), d.expectations(M.SZ)[1]])
+
+    def mf_dynamics_add(a):
+        from oqupy.dynamics import MeanFieldDynamics
+        d = MeanFieldDynamics()
+        d.add(0.0, [a], 0.5 + 0j)
+        return lambda: np.array(d.system_dynamics[0].states).ravel()
+
+    def system_h(a):
+        s_ = oq.System(a)
+        return lambda: np.concatenate([np.asarray(s_.hamiltonian).ravel(), np.asarray(s_.liouvillian()).ravel()[:4]])
+
+    def system_lind(a):
+        s_ = oq.System(H_NP, gammas=[0.3], lindblad_operators=[a])
+        return lambda: np.asarray(s_.lindblad_operators[0]).ravel()
+
+    def bath_op(a):
+        b = oq.Bath(a, M.ohmic(alpha=0.2, temperature=0.3))
+        return lambda: np.concatenate([b.coupling_operator.ravel(), b.unitary_transform.ravel()])
+
+    def control_add(a):
+        c = oq.Control(2)
+        c.add_single(1, a)
+        return lambda: np.asarray(c.get_controls(1, dt=0.1, start_time=0.0)[0]).ravel()
+
+    def chain_control_add(a):
+        c = oq.ChainControl([2, 2])
+        c.add_single_site_control(a, site=0, step=1)
+        return lambda: np.asarray(c.get_single_site_controls(1, post=False)[0]).ravel()
+
+    def spt_mpo(a):
+        from oqupy.process_tensor import SimpleProcessTensor
+        p_ = SimpleProcessTensor(hilbert_space_dimension=2, dt=0.1)
+        p_.set_mpo_tensor(0, a.reshape(1, 1, 4, 4))
+        return lambda: p_.get_mpo_tensor(0).ravel()
+
+    def spt_cap(a):
+        from oqupy.process_tensor import SimpleProcessTensor
+        p_ = SimpleProcessTensor(hilbert_space_dimension=2, dt=0.1)
+        p_.set_cap_tensor(0, a.reshape(16))
+        return lambda: np.asarray(p_.get_cap_tensor(0)).ravel()
+
+    def mps_gamma(a):
+        m = oq.AugmentedMPS([a.reshape(1, 4, 1, 1), M.RHO_PLUS])
+        return lambda: np.asarray(m.gammas[0]).ravel()
+
+    def mps_gamma2(a):
+        m = oq.AugmentedMPS([a, M.RHO_PLUS])
+        return lambda: np.asarray(m.gammas[0]).ravel()
+
+    def chain_h(a):
+        ch = oq.SystemChain(hilbert_space_dimensions=[2, 2])
+        ch.add_site_hamiltonian(site=0, hamiltonian=a)
+        return lambda: np.asarray(ch.site_liouvillians[0]).ravel()
+
+    def tempo_state(a):
+        t = oq.Tempo(oq.System(H_NP), bath, prm, a, 0.0)
+        return lambda: np.array(t.compute(1.4 * DT, progress_type="silent").states).ravel()
+
+    def mft_state(a):
+        s_ = oq.TimeDependentSystemWithField(lambda t, f: 0.5 * M.SZ + np.real(f) * M.SX)
+        m = oq.MeanFieldSystem([s_], lambda t, st, f: -0.1 * f)
+        t = oq.MeanFieldTempo(m, [bath], prm, [a], 0.5)
+        return lambda: np.array(t.compute(1.4 * DT, progress_type="silent").system_dynamics[0].states).ravel()
+
+    def bathdyn_corr(a):
+        tt = oq.bath_dynamics.TwoTimeBathCorrelations(oq.System(0.4 * M.SZ), bath, pt, initial_state=M.RHO_GEN2,
+                                                      system_correlations=a[:2, :2])
+        return lambda: np.asarray(tt.occupation(1.3, change_only=True, progress_type="silent")[1]).ravel()
+
+    rho = M.RHO_GEN2
+    kick = KICK
+    return {
+        "Dynamics.add": (rho, dynamics_add), "Dynamics(times, states)": (rho, dynamics_ctor),
+        "MeanFieldDynamics.add": (rho, mf_dynamics_add), "System.hamiltonian": (H_NP, system_h),
+        "System.lindblad_operators": (M.SM + 0.2 * M.SZ, system_lind), "Bath.coupling_operator": (0.5 * M.SX, bath_op),
+        "Control.add_single": (kick, control_add), "ChainControl.add_single_site_control": (kick, chain_control_add),
+        "SimpleProcessTensor.set_mpo_tensor": (kick, spt_mpo), "SimpleProcessTensor.set_cap_tensor": (kick, spt_cap),
+        "AugmentedMPS.gamma(rank4)": (rho, mps_gamma), "AugmentedMPS.gamma(rank2)": (rho, mps_gamma2),
+        "SystemChain.add_site_hamiltonian": (H_NP, chain_h), "Tempo.initial_state": (rho, tempo_state),
+        "MeanFieldTempo.initial_state_list": (rho, mft_state),
+        "TwoTimeBathCorrelations.system_correlations": (np.triu(np.full((4, 4), 0.25 + 0j)), bathdyn_corr),
+    }
+
+
+def retention_case(name):
+    tab = retention_table()
+    ref_arr, build = tab[name]
+    vio = []
+    pristine = build(np.array(ref_arr, dtype=complex, order="C").copy())()
+    arr = np.array(ref_arr, dtype=complex, order="C").copy()
+    try:
+        obs = build(arr)
+        arr *= 0.0
+        arr += 7.0 - 3.0j
+        after = obs()
+    except Exception as ex:  # noqa
+        return {"vio": [(f"retention|{name}|exception:{type(ex).__name__}", str(ex)[:150])], "n": 1}
+    if after.shape != pristine.shape or np.abs(after - pristine).max() > 1e-9:
+        vio.append((f"retention|{name}|object-follows-later-mutation-of-the-callers-array",
+                    f"{name}: after the caller overwrote its array in place the object answers differently (dev "
+                    f"{np.abs(after - pristine).max() if after.shape == pristine.shape else 'shape'})"))
+    return {"vio": vio, "n": 1}
+
+
+# ------------------------------------------------------------------------------------------------
 # (3) reuse of shared objects in every order
 
 def reuse_case(perm):
@@ -451,6 +594,7 @@ def run(tier, seed):
                 if kind == "CustomCorrelations" and sum(o in ("E", "R", "T") for o in h) > 2:
                     continue       # dblquad-based integrals are slow; at most two evaluations per history
                 jobs.append((kind, h))
+    precompute_references(kinds)       # before the worker pool is forked: workers inherit the pristine references
     res = pmap(history_case, jobs, seed=seed)
     states, trans = set(), 0
     for (kind, h), r in zip(jobs, res):
@@ -466,6 +610,12 @@ def run(tier, seed):
         nl += r["n"]
         for cls, what, lname in r["vio"]:
             rep.add(Violation(cls, what, {"part": "layout", "api": nm}))
+    rnames = list(retention_table())
+    rr = pmap(retention_case, rnames, chunksize=1, seed=seed)
+    for nm, r in zip(rnames, rr):
+        nl += r["n"]
+        for cls, what in r["vio"]:
+            rep.add(Violation(cls, what, {"part": "retention", "api": nm}))
     comps = ["tempo", "tempo-td", "pttempo", "dynamics", "correlations"]
     perms = list(itertools.permutations(comps)) if tier == "thorough" else \
         [p for p in itertools.permutations(comps) if p[0] in ("tempo", "pttempo", "dynamics")][::2]
@@ -484,12 +634,14 @@ def run(tier, seed):
         "rule": "state = (current public parameter values of objects A and B, selected object, parameters the latest bath was "
                 "built with); every history over {E,B,R,T,S1,S2,X} up to the depth that ends in an observation is executed on real "
                 "objects (CustomCorrelations: depth <= 4 and at most two evaluations); oracle = same observation on freshly "
-                "constructed objects; layouts: 19 array arguments x up to 7 layouts; reuse: permutations of 5 computations on shared "
+                "constructed objects; layouts: 19 array arguments x up to 7 layouts; retention: 16 APIs that keep a caller array, the caller "
+                "overwrites its array in place after the call and the object must answer as before; reuse: permutations of 5 computations on shared "
                 "objects (quick: 36 of 120 orders, thorough: all)",
         "samples": [{"kind": jobs[(17 * seed) % len(jobs)][0], "history": list(jobs[(17 * seed) % len(jobs)][1])},
                     {"layout": ["AugmentedMPS.gamma(rank2)", "T-view"]}, {"reuse": list(perms[0])}],
     }
-    rep.assumptions = ["public attributes considered: alpha / j_function / correlation_function (S1) and temperature (S2)",
+    rep.assumptions = ["reference observations are computed in freshly spawned interpreters (one evaluation per process)",
+                       "public attributes considered: alpha / j_function / correlation_function (S1) and temperature (S2)",
                        "fresh-object replay is the oracle; Tempo comparisons to 1e-6 at epsrel 1e-9"]
     return rep
 
@@ -501,5 +653,8 @@ def replay(rp):
     if rp["part"] == "layout":
         r = layout_case(rp["api"])
         return {"obs": [v[:2] for v in r["vio"]], "violation": r["vio"][0][0] if r["vio"] else None}
+    if rp["part"] == "retention":
+        r = retention_case(rp["api"])
+        return {"obs": r["vio"], "violation": r["vio"][0][0] if r["vio"] else None}
     r = reuse_case(tuple(rp["perm"]))
     return {"obs": r["vio"], "violation": r["vio"][0][0] if r["vio"] else None}
